@@ -5,6 +5,7 @@ import (
 	"fmt"
 	"strconv"
 
+	"github.com/tychoish/fun"
 	"github.com/tychoish/fun/adt"
 )
 
@@ -49,11 +50,13 @@ func resetCounting(a *adt.Atomic[int]) (res string) {
 }
 
 var opName = map[string]string{"get": "Get", "load": "Load", "set": "Set", "store": "Store", "swap": "Swap",
-	"cas": "CompareAndSwap", "safeset": "SafeSet", "reset": "Reset", "with": "With", "using": "Using", "string": "String"}
+	"cas": "CompareAndSwap", "safeset": "SafeSet", "reset": "Reset", "with": "With", "using": "Using", "string": "String",
+	"accget": "Getter", "accset": "Setter"}
 
 type regState struct {
 	Get int    `json:"get"`
 	Str string `json:"str"`
+	Acc int    `json:"acc"`
 }
 
 type atomicSub struct{ a *adt.Atomic[int] }
@@ -118,7 +121,12 @@ func args(s step) string {
 
 // ------------------------------------------------------------------ Synchronized
 
-type syncSub struct{ s *adt.Synchronized[int] }
+type syncSub struct {
+	s      *adt.Synchronized[int]
+	cell   int // the client's variable behind the accessor pair
+	getter fun.Future[int]
+	setter fun.Handler[int]
+}
 
 func (x *syncSub) check(op string, raw json.RawMessage) *verdict {
 	var st regState
@@ -128,6 +136,9 @@ func (x *syncSub) check(op string, raw json.RawMessage) *verdict {
 	if g, l, str := x.s.Get(), x.s.Load(), x.s.String(); g != st.Get || l != st.Get || str != st.Str {
 		return bad("adt/Synchronized."+opName[op]+"/state", "afterwards Get()=%d Load()=%d String()=%q, spec %d", g, l, str, st.Get)
 	}
+	if a := x.getter(); a != st.Acc || x.cell != st.Acc {
+		return bad("adt/Accessors."+opName[op]+"/state", "afterwards the getter returns %d (variable %d), spec %d", a, x.cell, st.Acc)
+	}
 	return nil
 }
 
@@ -136,6 +147,12 @@ func (x *syncSub) init(s step) *verdict {
 		x.s = &adt.Synchronized[int]{}
 	} else {
 		x.s = adt.NewSynchronized(s.V)
+	}
+	get, set := fun.Future[int](func() int { return x.cell }), fun.Handler[int](func(v int) { x.cell = v })
+	if s.V%2 == 0 {
+		x.getter, x.setter = adt.AccessorsWithLock(get, set)
+	} else {
+		x.getter, x.setter = adt.AccessorsWithReadLock(get, set)
 	}
 	return x.check("new", s.St)
 }
@@ -173,6 +190,10 @@ func (x *syncSub) do(_, _ int, s step) *verdict {
 		adt.SafeSet[int](x.s, s.V)
 	case "reset":
 		ret = strconv.Itoa(adt.Reset[int](x.s))
+	case "accget":
+		ret = strconv.Itoa(x.getter())
+	case "accset":
+		x.setter(s.V)
 	default:
 		return bad("adt/harness/unknown-op", "sync %s", s.Op)
 	}
